@@ -12,6 +12,14 @@ def big_inputs(rng, quick):
         # k-means: 100..140 short sequences
         root = gen.rand_seq(rng, alpha, rng.range(25, 40))
         out.append(('kmeans', kind, [gen.mutate(rng, root, alpha, 12, 8) + tail for _ in range(rng.choice([100, 101, 128, 140]))]))
+        # k-means with groups of identical sequences (adjacent after the length/name sort; rows of the anchor distance matrix)
+        root = gen.rand_seq(rng, alpha, rng.range(25, 40))
+        base = [gen.mutate(rng, root, alpha, 14, 8) + tail for _ in range(40)]
+        dups = []
+        for x in base: dups += [x] * rng.choice([1, 2, 3, 5])
+        while len(dups) < 110: dups.append(rng.choice(base))
+        rng.shuffle(dups)
+        out.append(('kmeans-duplicates', kind, dups[:rng.choice([110, 130, 150])]))
         # parallel runner: few long sequences around the 500 switch and well above it
         for L in ([499, 501, 1100] if quick else [499, 500, 501, 640, 1100, 2100]):
             root = gen.rand_seq(rng, alpha, L)
@@ -19,6 +27,9 @@ def big_inputs(rng, quick):
         # profile-profile above 500 columns with many members
         root = gen.rand_seq(rng, alpha, 560)
         out.append(('long-many', kind, [gen.mutate(rng, root, alpha, 8, 4) + tail for _ in range(12)]))
+        # ... and divergent members, so that the profile columns hold many different residues
+        root = gen.rand_seq(rng, alpha, 700)
+        out.append(('long-many-divergent', kind, [gen.mutate(rng, root, alpha, 45, 6) + tail for _ in range(16)]))
     for _ in range(6 if quick else 40):
         kind = 'dna' if rng.chance(1, 2) else 'protein'
         fam, seqs = gen.family(rng, kind, small=False)
